@@ -143,6 +143,15 @@ func (e *Enc) callStatic(f *frame, fn *ssa.Function, args []Val, bind []Val, pos
 	r := e.callStatic0(f, fn, args, bind, pos, pack, freshResults)
 	for _, ca := range after {
 		env := e.cellEnv(f, pos, e.cur)
+		// results of the call: ret0, ret1, ...
+		res := fn.Signature.Results()
+		if t, ok := r.(Tup); ok {
+			for i, v := range t.V {
+				env.names[fmt.Sprintf("ret%d", i)] = TV{V: v, Ty: res.At(i).Type()}
+			}
+		} else if r != nil && res.Len() == 1 {
+			env.names["ret0"] = TV{V: r, Ty: res.At(0).Type()}
+		}
 		tv := e.evalClauseVal(env, ca.Clause)
 		v, _ := e.materialize(env, tv, types.Typ[types.Uint64])
 		e.setVar("G|"+ca.Var, e.scalar(v, SBV64))
@@ -165,6 +174,12 @@ func (e *Enc) callStatic0(f *frame, fn *ssa.Function, args []Val, bind []Val, po
 		for _, ca := range f.con.CallAsserts {
 			if ca.Callee == disp && ca.N == n && !ca.After {
 				env := e.cellEnv(f, pos, e.cur.clone())
+				// arguments of the call: arg0, arg1, ... (receiver first)
+				for i, a := range args {
+					if i < len(fn.Params) {
+						env.names[fmt.Sprintf("arg%d", i)] = TV{V: a, Ty: fn.Params[i].Type()}
+					}
+				}
 				label := ca.Clause.Label
 				if label == "" {
 					label = "a"
